@@ -18,4 +18,5 @@ def rules(ctx, tier):
         lambda: search.rule_alltypes(ctx),
         lambda: mutation.rule_mut(ctx),
         lambda: sidops.rule_queryroute(ctx),
+        lambda: sidops.rule_ret3(ctx),
     ]
